@@ -48,7 +48,11 @@ pub const INFO: Info = Info {
            spectra, duplicates of earlier spectra (score ties) and spectra below min_peaks (filtered); split over \
            1-6 files. search: sequential reference, then pools of 1,2,3,4,8,16,32 threads x reps with and without \
            jitter (yield/spin/sleep before Scorer::score); directed: many tiny spectra with report_psms 5 (counter \
-           contention), chimera, wide-window, isotope errors, annotate_matches. batch: real Runner over temp MGF \
+           contention), chimera, wide-window, isotope errors, annotate_matches; chimeric-multi-psm stream (default on): \
+           every spectrum is the union of the full b/y ladders of 2-3 different database peptides inside one precursor \
+           window (+-2.5 Da or +-50 Da), chimera on, report_psms 2-3, min_matched_peaks 1-2, so most spectra return \
+           >= 2 PSMs (tags chimeric:* count the replies containing such a spectrum and the share per case; every 8th \
+           of them goes through op batch). batch: real Runner over temp MGF \
            files for every batch size 1..#files+1 (incl. partial last chunk, bs > #files) x pool sizes; directed: \
            bs = 0 (chunks(0) panics), empty files, a single file. downstream: 120-650 spectra, decoys on, the sequential search result rescored by \
            score_psms (KDE + LDA + PEP) in pools of 1,1,2,3,4,8,16,32 threads. non-trivial = at least 2 PSMs reported and at \
@@ -781,6 +785,104 @@ fn gen_inputs(rng: &mut Rng, sh: &Shape) -> Option<(Cfg, Vec<Vec<Spec>>, usize)>
     Some((cfg, files, npsm))
 }
 
+/// one chimeric case: every spectrum is the union of the complete b/y ladders of 2 (sometimes 3) different
+/// database peptides whose masses lie inside the same precursor window; chimera on, report_psms 2-3,
+/// min_matched_peaks 1-2, no deisotoping, min_peaks 1 — so that after the first peptide's peaks are removed the
+/// second one is still found.  Returns (cfg, files, #PSMs, #searched spectra, #spectra with >= 2 PSMs).
+fn gen_chimeric(rng: &mut Rng, nspec: usize, nfiles: usize) -> Option<(Cfg, Vec<Vec<Spec>>, usize, usize, usize)> {
+    for _attempt in 0..8 {
+        let narrow = rng.chance(1, 3);
+        let nprot = 8 + rng.below(8);
+        let cfg = Cfg {
+            fasta: gen_fasta(rng, nprot),
+            mc: 1 + rng.below(2) as u8,
+            min_len: 6,
+            max_len: 30,
+            decoys: rng.chance(2, 3),
+            bucket: *rng.pick(&[8usize, 64, 8192]),
+            report: 2 + rng.below(2),
+            chimera: true,
+            min_matched: 1 + rng.below(2) as u16,
+            iso: (0, 0),
+            z: (2, 3),
+            annotate: rng.chance(1, 4),
+            wide: false,
+            deiso: false,
+            min_peaks: 1,
+            ptol: if narrow { 1 } else { 2 },
+            ftol: rng.below(2) as u8,
+        };
+        let window = if narrow { 2.0f32 } else { 40.0f32 };
+        let params = db_parameters(&cfg, "-");
+        let fasta = Fasta::parse(cfg.fasta.clone(), params.decoy_tag.clone(), params.generate_decoys);
+        let Ok(db) = std::panic::catch_unwind(|| params.build(fasta)) else { continue };
+        // peptides are sorted by mass: partners of i are its neighbours within `window`
+        let n = db.peptides.len();
+        let partners = |i: usize| -> Vec<usize> {
+            let m = db.peptides[i].monoisotopic;
+            (0..n)
+                .filter(|&j| j != i && (db.peptides[j].monoisotopic - m).abs() <= window
+                    && db.peptides[j].sequence != db.peptides[i].sequence)
+                .collect()
+        };
+        let with_partner: Vec<usize> = (0..n).filter(|&i| !partners(i).is_empty()).collect();
+        if with_partner.len() < 4 {
+            continue;
+        }
+        let mut all: Vec<Spec> = Vec::new();
+        for _ in 0..nspec {
+            let a = *rng.pick(&with_partner);
+            let ps = partners(a);
+            let mut members = vec![a, *rng.pick(&ps)];
+            if ps.len() >= 2 && rng.chance(1, 4) {
+                let c = *rng.pick(&ps);
+                if !members.contains(&c) {
+                    members.push(c);
+                }
+            }
+            let z = 2 + rng.below(2) as u8;
+            let mut peaks: Vec<(f32, f32)> = Vec::new();
+            for (k, &m) in members.iter().enumerate() {
+                // the first member is the most intense one, so the rounds peel the members off one by one
+                let scale = match k { 0 => 1000.0, 1 => 300.0, _ => 100.0 };
+                for kind in [Kind::B, Kind::Y] {
+                    for ion in IonSeries::new(&db.peptides[m], kind) {
+                        peaks.push((ion.monoisotopic_mass + PROTON, scale * (0.5 + rng.unit() as f32)));
+                    }
+                }
+            }
+            for _ in 0..rng.below(10) {
+                peaks.push((100.0 + (rng.unit() * 1400.0) as f32, 1.0 + (rng.unit() * 50.0) as f32));
+            }
+            let pmz = db.peptides[a].monoisotopic / z as f32 + PROTON;
+            all.push(Spec { pmz, z, rt_sec: (rng.unit() * 3600.0) as f32, peaks });
+        }
+        let mut files: Vec<Vec<Spec>> = vec![Vec::new(); nfiles.max(1)];
+        for s in all {
+            let k = rng.below(files.len());
+            files[k].push(s);
+        }
+        let sc = scorer(&cfg, &db);
+        let sp = SpectrumProcessor::new(150, cfg.deiso, 0.0);
+        let (mut npsm, mut searched, mut multi) = (0usize, 0usize, 0usize);
+        for (fi, f) in files.iter().enumerate() {
+            for (si, s) in f.iter().enumerate() {
+                let p = sp.process(raw_spectrum(fi, si, s));
+                if p.peaks.len() >= cfg.min_peaks {
+                    let k = std::panic::catch_unwind(std::panic::AssertUnwindSafe(|| sc.score(&p).len())).unwrap_or(0);
+                    searched += 1;
+                    npsm += k;
+                    if k >= 2 {
+                        multi += 1;
+                    }
+                }
+            }
+        }
+        return Some((cfg, files, npsm, searched, multi));
+    }
+    None
+}
+
 pub fn gen(rng: &mut Rng, tier: Tier, emit: &mut dyn FnMut(Case)) {
     let quick = tier == Tier::Quick;
     let all_pools: &[usize] = &[1, 2, 3, 4, 8, 16, 32];
@@ -826,6 +928,43 @@ pub fn gen(rng: &mut Rng, tier: Tier, emit: &mut dyn FnMut(Case)) {
             _ => "search:standard",
         };
         emit(Case::new(write_req("search", &req)).tag(tag).tag_if(npsm < 2, "few-psms").nontrivial(npsm >= 2));
+    }
+    // ---------------------------------------------------------------- search: chimeric multi-PSM spectra
+    let n_chim = if quick { 8 } else { 80 };
+    for i in 0..n_chim {
+        let nspec = 6 + rng.below(if quick { 30 } else { 100 });
+        let nfiles = 1 + rng.below(3);
+        let Some((cfg, files, npsm, searched, multi)) = gen_chimeric(rng, nspec, nfiles) else { continue };
+        let mut configs = Vec::new();
+        for &t in all_pools {
+            configs.push((t, 1usize));
+            if rng.chance(1, 3) {
+                configs.push((t, 0usize));
+            }
+        }
+        let reps = if quick { 1 } else { 2 };
+        let op = if i % 8 == 7 { "batch" } else { "search" };
+        let req = if op == "batch" {
+            let n = files.len();
+            let mut cs = vec![(1usize, 1usize)];
+            for bs in 1..=n + 1 {
+                cs.push((bs, *rng.pick(&[2usize, 4, 8])));
+            }
+            Req { cfg, files, configs: cs, reps: 1, seed: 0 }
+        } else {
+            Req { cfg, files, configs, reps, seed: rng.next() >> 1 }
+        };
+        emit(Case::new(write_req(op, &req))
+            .tag("search:chimeric-multi-psm")
+            .tag_if(multi >= 1, "chimeric:reply-has-spectrum-with>=2-psms")
+            .tag_if(multi == 0, "chimeric:no-multi-psm-spectrum")
+            .tag_if(searched > 0 && 4 * multi >= 3 * searched, "chimeric:multi-psm-share>=75%")
+            .tag_if(searched > 0 && 2 * multi >= searched && 4 * multi < 3 * searched, "chimeric:multi-psm-share-50..75%")
+            .tag_if(searched > 0 && 2 * multi < searched, "chimeric:multi-psm-share<50%")
+            .nontrivial(multi >= 1 && npsm >= 2));
+        if std::env::var("C11_CHIMERIC_STATS").is_ok() {
+            eprintln!("chimeric case {i}: spectra {searched} multi-psm {multi} psms {npsm}");
+        }
     }
     // ---------------------------------------------------------------- downstream
     let n_down = if quick { 4 } else { 40 };
